@@ -227,6 +227,11 @@ class Parser:
             self.eat(); v = self.unary()
             if v.kind != "bool": raise Untranslatable("! on %s" % v.kind)
             return Val("bool", "(!%s)" % v.text, fo=v.fo)
+        if tk == ("p", "&") and self.peek(1)[0] == "id" and (self.peek(1)[1] in self.env and self.env[self.peek(1)[1]] in ("P32", "P64")) and self.peek(2) == ("p", "["):
+            # &p[k] = p + k
+            self.eat(); v = self.primary(); self.eat("["); ix = self.expr(); self.eat("]")
+            if ix.kind != "imm": raise Untranslatable("address of a non-constant index")
+            return self.binop("+", v, ix)
         if tk == ("p", "&"):
             self.eat(); v = self.postfix()
             if v.kind in ("R", "V") and re.match(r"^[A-Za-z_]\w*$", v.text): return Val("ADDR", v.text)
@@ -413,6 +418,12 @@ class Parser:
             w64 = mm_.group(1) in ("pd", "epi64")
             ktxt = str(a[1].const) if a[1].kind == "imm" else a[1].text
             return Val("R", "(kload%s %s %s (loadw %s %d))" % ("64" if w64 else "32", self.coerce(a[0], "R").text, ktxt, a[2].text[0], a[2].text[1]), fo=fo)
+        if base == "loadl_pi":
+            if len(a) != 2 or a[1].kind not in ("P32", "P64"): raise Untranslatable("loadl_pi arguments")
+            return Val("R", "(loadl_pi %s %s %d)" % (self.coerce(a[0], "R").text, a[1].text[0], a[1].text[1]), fo=fo)
+        if base == "loadl_epi64":
+            if len(a) != 1 or a[0].kind not in ("P32", "P64"): raise Untranslatable("load from a non-pointer")
+            return Val("R", "(loadw_sd %s %d)" % a[0].text, fo=fo)
         if base in ("load_ss", "load_sd"):
             if len(a) != 1 or a[0].kind not in ("P32", "P64"): raise Untranslatable("load from a non-pointer")
             return Val("R", "(loadw_%s %s %d)" % (base[-2:], a[0].text[0], a[0].text[1]), fo=fo)
@@ -443,7 +454,7 @@ MARK = "inline __attribute__((always_inline))"
 def preprocess(isa, repo=None):
     repo = repo or core.REPO
     cmd = ["g++", "-std=c++14", "-E", "-P", "-O2", "-DFASTOR_VERIF", "-x", "c++"] + core.ISA_FLAGS[isa] + ["-I" + repo, "-"]
-    src = '#include "Fastor/simd_vector/SIMDVector.h"\n#include "Fastor/simd_math/simd_math.h"\n#include "Fastor/backend/transpose/transpose_kernels.h"\n#include "Fastor/backend/dyadic.h"\n#include "Fastor/backend/norm.h"\n'
+    src = '#include "Fastor/simd_vector/SIMDVector.h"\n#include "Fastor/simd_math/simd_math.h"\n#include "Fastor/backend/transpose/transpose_kernels.h"\n#include "Fastor/backend/dyadic.h"\n#include "Fastor/backend/norm.h"\n#include "Fastor/backend/matmul/matmul_specialisations_kernels.h"\n'
     p = subprocess.run(cmd, input=src, stdout=subprocess.PIPE, stderr=subprocess.PIPE, text=True, timeout=600)
     if p.returncode != 0:
         raise RuntimeError("preprocessing failed for %s: %s" % (isa, p.stderr[-800:]))
@@ -495,7 +506,12 @@ def scan(text):
             if s0 < i < e0: cls = (T, abi)
         m = SIG_RE.match(sig)
         if m:
-            out.append({"cls": cls, "ret": m.group("ret").strip(), "name": re.sub(r"\s+", "", m.group("name")), "params": m.group("params").strip(),
+            pre = text[max(0, i - 500):i]
+            cut = max(pre.rfind("}"), pre.rfind(";"), pre.rfind("{"))
+            th = pre[cut + 1:]
+            tpos = th.find("template")
+            out.append({"template": " ".join(th[tpos:].split()) if tpos >= 0 else "",
+                        "cls": cls, "ret": m.group("ret").strip(), "name": re.sub(r"\s+", "", m.group("name")), "params": m.group("params").strip(),
                         "init": (m.group("init") or "").strip(), "body": body, "sig": sig})
         pos = be
     return out
@@ -671,6 +687,8 @@ def translate_function(f, funcs):
         stmts = split_statements(body)
         env["@aliases"] = {}
         def handle(s):
+            mt = re.match(r"^(?:internal::)?(_matmul8k8_(?:float|double))\s*<\s*([^>]*)>\s*(\(.*\))$", s, re.S)
+            if mt: s = mangle("%s<%s>" % (mt.group(1), mt.group(2).replace(" ", ""))) + mt.group(3)
             if re.match(r"^unused\s*\(.*\)$", s): return
             if result[0] is not None: raise Untranslatable("statement after return")
             m = re.match(r"^return\s+(.*)$", s, re.S)
@@ -721,6 +739,10 @@ def translate_function(f, funcs):
                 k = env[m.group(1)]; cur = Val(k, lname(m.group(1))); rhs = ev(m.group(3), k)
                 r = Parser([], env, funcs, cls, ctypes).binop(m.group(2)[0], cur, rhs); fo[0] = fo[0] or r.fo
                 lets.append((lname(m.group(1)), r.text)); return
+            # direct initialisation of a register  __m128 x(expr)
+            m = re.match(r"^(__m\d+[di]?)\s+([A-Za-z_]\w*)\s*\((.*)\)$", s, re.S)
+            if m:
+                v = ev(m.group(3), "R"); env[m.group(2)] = "R"; ctypes[m.group(2)] = m.group(1); bind(m.group(2), v); return
             # declarations with initialiser
             m = re.match(r"^(?:static\s+)?(?:const\s+)?(SIMDVector<[^=]*?>|[A-Za-z_][\w ]*?)\s+([A-Za-z_]\w*)\s*=\s*(.*)$", s, re.S)
             if m and parse_type(m.group(1), cls)[0]:
@@ -751,6 +773,15 @@ def translate_function(f, funcs):
                 if k == "C" and v.kind != "C": raise Untranslatable("statement %r" % s[:70])
                 if k == "V": v = Parser([], env, funcs, cls, ctypes).coerce(v, "R"); ctypes[m.group(2)] = reg_ctype(*info)
                 env[m.group(2)] = k; bind(m.group(2), v); return
+            if s == "return" and void_ret: return
+            m = re.match(r"^_mm_(storel_pi|store_ss|store_sd)\s*\((.*)\)$", s, re.S)
+            if m:
+                aa = split_args(m.group(2))
+                if len(aa) != 2: raise Untranslatable("store arity")
+                pv = ev(aa[0]); rv = ev(aa[1], "R")
+                if pv.kind not in ("P32", "P64"): raise Untranslatable("store through a non-pointer")
+                W = {"storel_pi": 2, "store_ss": 1, "store_sd": 2}[m.group(1)]
+                lets.append((pv.text[0], "(storew %s %d %d %s)" % (pv.text[0], pv.text[1], W, rv.text))); return
             # store through a pointer:  _mm_storeu_ps(p + k, e)
             m = re.match(r"^_mm(256|512)?_storeu?_(ps|pd|si128|si256|si512)\s*\((.*)\)$", s, re.S)
             if m:
@@ -869,14 +900,47 @@ def assign(tgt, v, env, lets, cls, cplx_cls, selfmod):
     if k in ("i32", "i64", "f32", "f64") and mem is None and v.kind == k: lets.append((lname(nm), v.text)); return True
     return False
 
+MATMUL_K = (1, 2, 3, 4, 5, 8)
+MATMUL_INST = [(T, M, K, M) for T in ("float", "double") for M in (2, 3, 4, 8) for K in MATMUL_K]
+
+def mangle(name):
+    return re.sub(r"\W+", "_", name).strip("_")
+
+def instantiate_matmul(fns):
+    """template families of matmul_specialisations_kernels.h -> one function per (T, M, K, N) of MATMUL_INST for which the
+    enable_if condition of the family holds and no full specialisation exists (C++ overload resolution)"""
+    full = set(f["name"] for f in fns if re.match(r"^_matmul<", f["name"]))
+    out = []
+    for f in fns:
+        th = f.get("template", "")
+        if f["name"] in ("_matmul", "_matmul8k8_float", "_matmul8k8_double") and "size_t M" in th and "size_t K" in th:
+            mc = re.search(r"enable_if<\s*(.*?)\s*,\s*bool\s*>", th, re.S)
+            if not mc: continue
+            cond = mc.group(1)
+            py = re.sub(r"std::is_same<\s*T\s*,\s*(\w+)\s*>::value", r'(T=="\1")', cond).replace("&&", " and ").replace("||", " or ")
+            py = re.sub(r"!(?!=)", " not ", py)
+            for (T, M, K, N) in MATMUL_INST:
+                try: ok = bool(eval(py, {"__builtins__": {}}, {"T": T, "M": M, "K": K, "N": N}))
+                except Exception: ok = False
+                nm = "%s<%s,%d,%d,%d>" % (f["name"], T, M, K, N)
+                if not ok or nm in full: continue
+                g = dict(f); g["name"] = nm; g["template"] = ""
+                sub = lambda t: re.sub(r"\bT\b", T, re.sub(r"\bN\b", str(N), re.sub(r"\bK\b", str(K), re.sub(r"\bM\b", str(M), t))))
+                g["body"] = sub(f["body"]); g["params"] = sub(f["params"]); g["sig"] = sub(f["sig"]); g["instance_of"] = cond
+                out.append(g)
+        else:
+            out.append(f)
+    order = lambda f: 1 if f["name"].startswith("_matmul8k8") else 2 if f["name"].startswith("_matmul") else 0
+    return sorted(out, key=order)      # stable: helpers first, then the 8k8 kernels, then the _matmul instances that call them
+
 def translate(isa, repo=None):
     """-> (lean file text, report dict)"""
     text = preprocess(isa, repo)
-    fns = scan(text)
+    fns = instantiate_matmul(scan(text))
     funcs = {}; used = set(); defs = []; untranslated = []; translated = []; metas = []
     for f in fns:
         nm = f["name"]
-        interesting = (f["cls"] is not None) or nm.startswith("_mm") or nm.startswith("_add") or nm in ("_addsub_ps", "_mulsub_ps", "_hsub_pd", "arrange_from_load", "arrange_for_store") or nm.startswith("_MM_TRANSPOSE") or nm.startswith("_dyadic<") or nm.startswith("_norm<") \
+        interesting = (f["cls"] is not None) or nm.startswith("_mm") or nm.startswith("_add") or nm in ("_addsub_ps", "_mulsub_ps", "_hsub_pd", "arrange_from_load", "arrange_for_store") or nm.startswith("_MM_TRANSPOSE") or nm.startswith("_dyadic<") or nm.startswith("_norm<") or nm.startswith("_matmul<") or nm.startswith("_matmul8k8_") \
             or "SIMDVector<" in f["params"] or "SIMDVector<" in f["ret"]
         if not interesting: continue
         if "T,ABI" in f["sig"].replace(" ", "") or "template" in f["ret"]: continue
@@ -898,6 +962,7 @@ def translate(isa, repo=None):
             used.add(lean)
             if f["cls"] is None and meta["owner"] is None:
                 funcs.setdefault(nm, []).append(meta)      # free helper: callable from later bodies, overloads resolved by register type
+                if "<" in nm: funcs.setdefault(mangle(nm), []).append(meta)
             defs.append("-- " + label + "\n" + txt)
             translated.append(lean); meta["label"] = label; metas.append(meta)
         except Untranslatable as e:
@@ -930,6 +995,7 @@ def regenerate(isas=ISAS, repo=None, log=None):
         p = os.path.join(GEN_DIR, "Simd_%s.lean" % isa)
         old = open(p).read() if os.path.exists(p) else None
         rep["changed"] = (old != txt)
+        rep["previous_text"] = old if old != txt else None     # restored by xlate_validate.write_tables when the new file does not compile
         if old != txt:
             with open(p, "w") as fh: fh.write(txt)
         rep["path"] = p
